@@ -310,8 +310,7 @@ def model_ok(fam, prim):
         s2 = prim["sigma"] ** 2
         return prim["nu"] > 1e-3 and s2 > 1e-4 and 1 - 0.5 * prim["nu"] * s2 - prim["theta"] * prim["nu"] > 0.05
     if fam == "cgmy":
-        return prim["m"] > 1.5 and prim["g"] > 0.5 and prim["y"] not in (0.0, 1.0) or \
-            (prim["y"] in (0.0, 1.0) and prim["m"] > 1.5 and prim["g"] > 0.5)
+        return prim["m"] > 1.5 and prim["g"] > 0.5
     return True
 
 
@@ -659,9 +658,11 @@ def draw_calibration(rng, fam, params, mode):
 # ---------------------------------------------------------------------------------------------------------- run
 def run(ctx):
     rng = ctx.rng
-    ctx.lean("derived hem")
-    # generated tables against M's own lists (the obligation itself is checked by lake build)
     for fam in CLASSES:
+        # M's cached-attribute names are the ones this harness compares (the measured ones are checked by lake build)
+        names = ctx.lean(f"derived {fam}").strip()[1:-1]
+        if [x for x in names.split(",") if x] != DERIVED[fam]:
+            raise Infra(f"harness table DERIVED[{fam}] out of sync with the model: {names}")
         constraints_probe(ctx, fam)
     nh = ctx.n(60, 600)
     for i in range(nh):
